@@ -36,7 +36,7 @@ def gen_c18(repo):
     if len(pairs) < 1:
         raise X.ExtractError('Resource::GetDefault: no {semconv::…, value} pairs found')
     if not re.search(r'\}\s*\}\s*,\s*std::string\s*\{\s*\}\s*\)', body):
-        raise X.ExtractError('Resource::GetDefault: schema url is no longer the empty string')
+        raise X.ShapeChanged('Resource::GetDefault: schema url is no longer the empty string')
     items = []
     for ns, name, val in pairs:
         k = _semconv(repo, ns, name)
@@ -58,7 +58,7 @@ def gen_c18(repo):
     m = X._one(r'default_service_name\s*\+=\s*"((?:[^"\\]|\\.)*)"\s*\+', cr, 'separator before the executable name')
     out.append(f'def resUnknownServiceSep : List UInt8 := {X.lean_bytes(X._c_string_literal(m.group(1)))}\n')
     if not re.search(r'GetDefault\(\)\s*\.Merge\(\s*otel_resource\s*\)\s*\.Merge\(\s*Resource\s*\{\s*attributes\s*,\s*schema_url\s*\}\s*\)', cr):
-        raise X.ExtractError('Resource::Create is no longer GetDefault().Merge(env).Merge(user)')
+        raise X.ShapeChanged('Resource::Create is no longer GetDefault().Merge(env).Merge(user)')
     # the detector's separators
     rd = X._strip_comments(X._read(repo, 'sdk/src/resource/resource_detector.cc'))
     m = X._one(r"std::getline\(\s*iss\s*,\s*token\s*,\s*'(.)'\s*\)", rd, "list separator of OTELResourceDetector::Detect")
@@ -83,7 +83,7 @@ def gen_c18(repo):
     fb = X._one(r'bool GetBoolEnvironmentVariable\s*\(.*?\)\s*\{(.*?)\n\}', ev, 'GetBoolEnvironmentVariable').group(1)
     lits = re.findall(r'strcasecmp\(\s*raw_value\.c_str\(\)\s*,\s*"(\w+)"\s*\)\s*==\s*0\s*\)\s*\{\s*value\s*=\s*(true|false)', fb)
     if len(lits) != 2:
-        raise X.ExtractError('GetBoolEnvironmentVariable: expected two strcasecmp literals')
+        raise X.ShapeChanged('GetBoolEnvironmentVariable: expected two strcasecmp literals')
     out.append('/-- literals compared with `strcasecmp`, and the value each yields -/\n'
                'def envBoolLiterals : List (List UInt8 × Bool) := [' +
                ', '.join(f'({X.lean_bytes(l.encode())}, {v})' for l, v in lits) + ']\n')
